@@ -64,6 +64,10 @@ claim("C18", "ordered-protocol and dataflow-shape rules over the application pip
       "Validator::apply validates the head parameter against exactly the datum it then applies, first, and consumes exactly the head with every other field kept; apply_data builds [program datum] and keeps the version; SerializableProgram::map keeps the Plutus version; apply_parameter overwrites program and parameters together under an equality of the same key on both titles; tuple arity checks are equalities before the zip; apply_params_to_script applies in list order; hash derived not stored; rejection by Err not panic (three demonstrated panics listed as known findings).",
       "behavioural equality of the applied validator on the remaining arguments follows from apply_data's shape given C03 and is not decided; file round trips rest on C08", "DESIGN.md §3 C18", "shape+flow")
 
+claim("C19", "per-arm version consistency, budget-threading (dataflow shape) and ordered-protocol rules over the simulation pipeline; spec table of canonically ordered collections; sibling agreement of pointer orderings",
+      "Per Plutus version one arm pairs script kind, cost model, language and TxInfo builder; (datum?) -> redeemer -> context for V1/V2, context only for V3; the caller's budget reaches every evaluation; the redeemer loop evaluates against the remaining budget and decrements it in both dimensions, correctly paired, by the units of the redeemer the evaluation returned; machine errors become Err before a result is built; the ledger's ordered collections are sorted in the script context; every positional sort of inputs keys on (transaction id, index); lookup-table discovery loops run to completion.",
+      "contents of the script context (value construction in to_plutus_data), phase-one checks beyond pointer construction and slot arithmetic are not decided", "DESIGN.md §3 C19", "shape")
+
 
 def main():
     props = [json.loads(l) for l in open(os.path.join(HERE, "properties.jsonl"))]
